@@ -27,6 +27,28 @@ def boom(kind):
 
 
 # ---------------------------------------------------------------------------
+# weighted alternatives
+# ---------------------------------------------------------------------------
+
+def weighted(*pairs):
+    """Alternatives with REAL weights: weighted((3, a), (1, b)) draws a three
+    times out of four.  Hypothesis' own one_of() flattens nested alternatives
+    (also through .map()), drops repeated strategy objects and then chooses
+    uniformly among all leaves, so "one_of(a, a, a, b)" gives no weight at all
+    and a strategy with many leaves crowds out its neighbours.  The choice is
+    drawn explicitly here (first alternative = simplest for shrinking)."""
+    from hypothesis import strategies as st
+    strategies = [s_ for _, s_ in pairs]
+    table = [i for i, (w, _) in enumerate(pairs) for _ in range(int(w))]
+    return st.sampled_from(table).flatmap(lambda i: strategies[i])
+
+
+def equally(*strategies):
+    """Alternatives with equal weight each, whatever their inner structure."""
+    return weighted(*[(1, s_) for s_ in strategies])
+
+
+# ---------------------------------------------------------------------------
 # coordinate strategies
 # ---------------------------------------------------------------------------
 
@@ -290,21 +312,16 @@ def motion_op_strategy(coord=None, shapes=True, depth=2):
     from hypothesis import strategies as st
     pt = point_strategy(coord)
     form = st.sampled_from(["kw", "kw", "list", "point"])
-    prim = st.one_of(
-        st.fixed_dictionaries({"op": st.sampled_from(["move", "rapid"]), "pt": pt, "form": form}),
-        st.fixed_dictionaries({"op": st.sampled_from(["move", "rapid"]), "pt": pt, "form": form}),
-        st.fixed_dictionaries({"op": st.sampled_from(["move_absolute", "rapid_absolute"]),
-                               "pt": pt, "form": form}),
-        st.fixed_dictionaries({"op": st.sampled_from(["move_absolute", "rapid_absolute"]),
-                               "pt": pt, "form": form}),
-        st.fixed_dictionaries({"op": st.just("set_axis"), "pt": pt, "form": form}),
-        st.fixed_dictionaries({"op": st.just("auto_home"), "pt": pt, "form": st.just("kw")}),
-        st.fixed_dictionaries({"op": st.just("probe"), "mode": st.sampled_from(PROBE_MODES),
-                               "pt": pt, "form": form}),
-        st.fixed_dictionaries({"op": st.just("set_distance_mode"),
-                               "mode": st.sampled_from(["absolute", "relative"])}),
-    )
-    noise = st.one_of(
+    mv = st.fixed_dictionaries({"op": st.sampled_from(["move", "rapid"]), "pt": pt, "form": form})
+    bypass = st.fixed_dictionaries({"op": st.sampled_from(["move_absolute", "rapid_absolute"]),
+                                    "pt": pt, "form": form})
+    sa = st.fixed_dictionaries({"op": st.just("set_axis"), "pt": pt, "form": form})
+    ah = st.fixed_dictionaries({"op": st.just("auto_home"), "pt": pt, "form": st.just("kw")})
+    pr = st.fixed_dictionaries({"op": st.just("probe"), "mode": st.sampled_from(PROBE_MODES),
+                                "pt": pt, "form": form})
+    dm = st.fixed_dictionaries({"op": st.just("set_distance_mode"),
+                                "mode": st.sampled_from(["absolute", "relative"])})
+    noise = equally(
         st.sampled_from([("set_extrusion_mode", "relative"), ("set_extrusion_mode", "absolute"),
                          ("set_feed_mode", "1/time"), ("set_feed_mode", "units/min"),
                          ("set_plane", "zx"), ("comment", "note"), ("set_length_units", "in"),
@@ -320,7 +337,7 @@ def motion_op_strategy(coord=None, shapes=True, depth=2):
     # ops that emit nothing and are carried out by the property's own `before`
     # hook (C01): relabelling an axis in the middle of a history, and the
     # pure conversion helpers to_absolute / to_absolute_list / to_distance_mode
-    aux = st.one_of(
+    aux = equally(
         st.fixed_dictionaries({"op": st.just("relabel"), "axis": st.sampled_from(["x", "y", "z"]),
                                "label": st.sampled_from(["A", "B", "C", "U", "V", "W", "X", "Y",
                                                          "Z", " a ", "w"]),
@@ -329,11 +346,12 @@ def motion_op_strategy(coord=None, shapes=True, depth=2):
                                "fn": st.sampled_from(["to_absolute", "to_distance_mode",
                                                       "to_absolute_list"]),
                                "pts": st.lists(pt, min_size=1, max_size=3)}))
-    prim = st.one_of(prim, prim, prim, prim, prim, noise, prim, prim, prim, prim, prim, aux)
+    pairs = [(6, mv), (4, bypass), (2, sa), (1, ah), (2, pr), (3, dm), (2, noise), (1, aux)]
     if shapes:
-        prim = st.one_of(prim, prim, prim, st.fixed_dictionaries(
+        pairs.append((4, st.fixed_dictionaries(
             {"op": st.just("shape"), "d": shape_strategy(),
-             "dir": st.sampled_from(["cw", "ccw"])}))
+             "dir": st.sampled_from(["cw", "ccw"])})))
+    prim = weighted(*pairs)
     if depth <= 0:
         return prim
     inner = motion_op_strategy(coord, shapes, depth - 1)
@@ -342,7 +360,7 @@ def motion_op_strategy(coord=None, shapes=True, depth=2):
         "kind": st.sampled_from(["absolute_mode", "relative_mode"]),
         "body": st.lists(inner, min_size=0, max_size=4),
         "raise": st.sampled_from([False, False, True, "base"])})
-    return st.one_of(prim, prim, prim, prim, ctx)
+    return weighted((6, prim), (1, ctx))
 
 
 def point_args(op):
